@@ -207,24 +207,25 @@ type inflight struct {
 }
 
 type round struct {
-	plan    Plan
-	w       *cosim.World
-	peers   []*cosim.RefPeer
-	mu      sync.Mutex
-	evs     []Ev
-	nextID  int
-	fl      map[int]*inflight // by caller
-	excl    sync.RWMutex      // A = direct BindUpdate (Lock), B = peer-set / key changes through UAPI (RLock)
-	devPub  atomic.Pointer[ref.Key]
-	keyMu   sync.Mutex
-	tunMu   sync.RWMutex // sim.Tun.Event must not race with sim.Tun.Close (harness objects)
-	curKey  ref.Key
-	keyGen  atomic.Int64
-	stop    atomic.Bool
-	closed  atomic.Bool
-	stats   map[string]int
-	statsMu sync.Mutex
-	opNames []string
+	plan     Plan
+	w        *cosim.World
+	peers    []*cosim.RefPeer
+	mu       sync.Mutex
+	evs      []Ev
+	nextID   int
+	fl       map[int]*inflight // by caller
+	excl     sync.RWMutex      // A = direct BindUpdate (Lock), B = peer-set / key changes through UAPI (RLock)
+	devPub   atomic.Pointer[ref.Key]
+	keyMu    sync.Mutex
+	downExcl sync.RWMutex // Down (RLock) never overlaps a private_key set (Lock): listed finding "down vs setprivatekey vs rekey"
+	tunMu    sync.RWMutex // sim.Tun.Event must not race with sim.Tun.Close (harness objects)
+	curKey   ref.Key
+	keyGen   atomic.Int64
+	stop     atomic.Bool
+	closed   atomic.Bool
+	stats    map[string]int
+	statsMu  sync.Mutex
+	opNames  []string
 }
 
 func (r *round) count(k string, n int) {
@@ -313,6 +314,13 @@ func (r *round) exec(caller int, op PlanOp) {
 	classB := op.K == "set_add" || op.K == "set_remove" || op.K == "set_key" || op.K == "set_samekey" ||
 		op.K == "set_keepalive" || op.K == "set_endpoint" || op.K == "set_replace_peers"
 	if !r.plan.Unsafe {
+		if op.K == "down" {
+			r.downExcl.RLock()
+			defer r.downExcl.RUnlock()
+		} else if op.K == "set_key" || op.K == "set_samekey" {
+			r.downExcl.Lock()
+			defer r.downExcl.Unlock()
+		}
 		if classA {
 			r.excl.Lock()
 			defer r.excl.Unlock()
